@@ -719,6 +719,40 @@ fn text_of(h: usize, w: usize, items: &[Vec<String>]) -> String {
 /// max/min, indexing, equality), copying transpose, `as_scalar_unchecked`.
 fn side_checks(arr: &Arr2D<i64>, g: &OGrid, ck: &mut Check, heavy: bool) {
     let (h, w) = (g.h, g.w);
+    // ---- the whole Clone protocol: `clone_from` into an existing array of every kind of shape (same item count in
+    // another shape, other counts, empty shapes), through `Vec<Arr2D>::clone_from` / `clone_from_slice`, `to_owned`
+    {
+        let n = h * w;
+        let mut shapes = vec![(w, h), (1, n), (n, 1), (h, w), (h + 1, w), (h, w + 1), (0, 0), (0, w), (h, 0), (0, n), (n, 0)];
+        if n % 2 == 0 {
+            shapes.push((2, n / 2));
+            shapes.push((n / 2, 2));
+        }
+        for (dh, dw) in shapes {
+            let got = catch(|| {
+                let mut d = Arr2D::full(-7i64, dh, dw);
+                d.clone_from(arr);
+                let same = d == *arr;
+                let rows: Vec<Vec<i64>> = d.rows().map(|r| r.to_vec()).collect();
+                (d.shape(), d.size(), same, rows)
+            });
+            match got {
+                None => ck.that(false, || format!("clone_from into a {dh}x{dw} array panicked")),
+                Some((shape, size, same, rows)) => ck.that(shape == (h, w) && size == n && same && (rows == g.rows || n == 0), || {
+                    format!("clone_from into a {dh}x{dw} array gives shape {shape:?}, size {size}, equal to the source: {same}, rows {rows:?}; the source is {h}x{w} with rows {:?}", g.rows)
+                }),
+            }
+        }
+        let viavec = catch(|| {
+            let mut v = vec![Arr2D::full(-7i64, w, h), Arr2D::full(-7i64, 1, n)];
+            v.clone_from(&vec![arr.clone(), arr.clone()]);
+            let mut s = [Arr2D::full(-7i64, n, 1)];
+            s.clone_from_slice(std::slice::from_ref(arr));
+            let o: Arr2D<i64> = arr.to_owned();
+            v.iter().chain(s.iter()).chain(std::iter::once(&o)).all(|d| d.shape() == (h, w) && d == arr && (n == 0 || d.rows().map(|r| r.to_vec()).collect::<Vec<_>>() == g.rows))
+        });
+        ck.that(viavec == Some(true), || "Vec::clone_from / clone_from_slice / to_owned of the array differ from the source".into());
+    }
     // ---- iterator protocol
     let it = catch(|| {
         let mut it = arr.rows();
